@@ -209,6 +209,8 @@ fn send_step(ab: State, ba: State, a_to_b: bool, fail_rate: f64, repair_rate: f6
 // @verif id=C03 tier=quick role=send_step timeout=900 desc=(Explicit,Healthy),send-a->b,rates=1/1
 crate::verif_proof! { unwind = 4;
 #[kani::stub(std::collections::VecDeque::remove, crate::verif_common::vecdeque_remove_stub)]
+#[kani::stub(std::collections::VecDeque::swap_remove_back, crate::verif_common::vecdeque_swap_remove_back_stub)]
+#[kani::stub(std::collections::VecDeque::swap_remove_front, crate::verif_common::vecdeque_swap_remove_front_stub)]
 fn c03_send_across_explicit_oneway_partition_is_dropped() {
     let (_, queued, matured) = send_step(State::ExplicitPartition, State::Healthy, true, 1.0, 1.0);
     assert!(!queued && !matured);
@@ -218,6 +220,8 @@ fn c03_send_across_explicit_oneway_partition_is_dropped() {
 // @verif id=C03 tier=quick role=send_step timeout=900 desc=(Explicit,Healthy),send-b->a,rates=1/1
 crate::verif_proof! { unwind = 4;
 #[kani::stub(std::collections::VecDeque::remove, crate::verif_common::vecdeque_remove_stub)]
+#[kani::stub(std::collections::VecDeque::swap_remove_back, crate::verif_common::vecdeque_swap_remove_back_stub)]
+#[kani::stub(std::collections::VecDeque::swap_remove_front, crate::verif_common::vecdeque_swap_remove_front_stub)]
 fn c03_reverse_traffic_with_random_failures_keeps_explicit_partition() {
     let (changed, queued, _) = send_step(State::ExplicitPartition, State::Healthy, false, 1.0, 1.0);
     assert!(changed && !queued);
@@ -227,6 +231,8 @@ fn c03_reverse_traffic_with_random_failures_keeps_explicit_partition() {
 // @verif id=C03 tier=thorough role=send_step timeout=2400 mem=16 desc=(Explicit,Healthy),send-b->a,rates=0.5/0.5(symbolic-coin)
 crate::verif_proof! { unwind = 4;
 #[kani::stub(std::collections::VecDeque::remove, crate::verif_common::vecdeque_remove_stub)]
+#[kani::stub(std::collections::VecDeque::swap_remove_back, crate::verif_common::vecdeque_swap_remove_back_stub)]
+#[kani::stub(std::collections::VecDeque::swap_remove_front, crate::verif_common::vecdeque_swap_remove_front_stub)]
 fn c03_reverse_traffic_with_symbolic_coin_keeps_explicit_partition() {
     let (changed, queued, _) = send_step(State::ExplicitPartition, State::Healthy, false, 0.5, 0.5);
     kani::cover!(changed, "the healthy direction failed at random");
@@ -236,6 +242,8 @@ fn c03_reverse_traffic_with_symbolic_coin_keeps_explicit_partition() {
 // @verif id=C03 tier=quick role=send_step timeout=900 desc=(RandPartition,Explicit),send-a->b,rates=1/1(random-repair)
 crate::verif_proof! { unwind = 4;
 #[kani::stub(std::collections::VecDeque::remove, crate::verif_common::vecdeque_remove_stub)]
+#[kani::stub(std::collections::VecDeque::swap_remove_back, crate::verif_common::vecdeque_swap_remove_back_stub)]
+#[kani::stub(std::collections::VecDeque::swap_remove_front, crate::verif_common::vecdeque_swap_remove_front_stub)]
 fn c03_random_repair_does_not_heal_explicit_partition() {
     let (changed, _, _) = send_step(State::RandPartition, State::ExplicitPartition, true, 1.0, 1.0);
     kani::cover!(changed, "random repair healed the random partition");
@@ -244,6 +252,8 @@ fn c03_random_repair_does_not_heal_explicit_partition() {
 // @verif id=C03,C14 tier=quick role=send_step timeout=900 desc=(Healthy,Healthy),send-a->b,fail_rate=0
 crate::verif_proof! { unwind = 4;
 #[kani::stub(std::collections::VecDeque::remove, crate::verif_common::vecdeque_remove_stub)]
+#[kani::stub(std::collections::VecDeque::swap_remove_back, crate::verif_common::vecdeque_swap_remove_back_stub)]
+#[kani::stub(std::collections::VecDeque::swap_remove_front, crate::verif_common::vecdeque_swap_remove_front_stub)]
 fn c03_healthy_send_is_in_flight_exactly_once() {
     let (changed, queued, matured) = send_step(State::Healthy, State::Healthy, true, 0.0, 1.0);
     assert!(!changed && (queued || matured));
@@ -253,6 +263,8 @@ fn c03_healthy_send_is_in_flight_exactly_once() {
 // @verif id=C03 tier=thorough role=send_step timeout=900 desc=(Healthy,Explicit),send-b->a,rates=1/0
 crate::verif_proof! { unwind = 4;
 #[kani::stub(std::collections::VecDeque::remove, crate::verif_common::vecdeque_remove_stub)]
+#[kani::stub(std::collections::VecDeque::swap_remove_back, crate::verif_common::vecdeque_swap_remove_back_stub)]
+#[kani::stub(std::collections::VecDeque::swap_remove_front, crate::verif_common::vecdeque_swap_remove_front_stub)]
 fn c03_send_across_explicit_b_to_a_is_dropped() {
     let (_, queued, matured) = send_step(State::Healthy, State::ExplicitPartition, false, 1.0, 0.0);
     assert!(!queued && !matured);
@@ -262,6 +274,8 @@ fn c03_send_across_explicit_b_to_a_is_dropped() {
 // @verif id=C03 tier=thorough role=send_step timeout=900 desc=(Explicit,RandPartition),send-b->a,rates=1/1
 crate::verif_proof! { unwind = 4;
 #[kani::stub(std::collections::VecDeque::remove, crate::verif_common::vecdeque_remove_stub)]
+#[kani::stub(std::collections::VecDeque::swap_remove_back, crate::verif_common::vecdeque_swap_remove_back_stub)]
+#[kani::stub(std::collections::VecDeque::swap_remove_front, crate::verif_common::vecdeque_swap_remove_front_stub)]
 fn c03_random_repair_of_reverse_direction_keeps_explicit() {
     let (changed, _, _) = send_step(State::ExplicitPartition, State::RandPartition, false, 1.0, 1.0);
     kani::cover!(changed, "random repair");
@@ -270,6 +284,8 @@ fn c03_random_repair_of_reverse_direction_keeps_explicit() {
 // @verif id=C03 tier=thorough role=send_step timeout=900 desc=(Explicit,Explicit),send-a->b,rates=1/1
 crate::verif_proof! { unwind = 4;
 #[kani::stub(std::collections::VecDeque::remove, crate::verif_common::vecdeque_remove_stub)]
+#[kani::stub(std::collections::VecDeque::swap_remove_back, crate::verif_common::vecdeque_swap_remove_back_stub)]
+#[kani::stub(std::collections::VecDeque::swap_remove_front, crate::verif_common::vecdeque_swap_remove_front_stub)]
 fn c03_full_partition_ignores_random_process() {
     let (changed, queued, _) = send_step(State::ExplicitPartition, State::ExplicitPartition, true, 1.0, 1.0);
     assert!(!changed && !queued);
@@ -468,6 +484,8 @@ fn hold_release<const N: usize>(dir: [bool; N], due_now: [bool; N], do_hold: boo
 // @verif id=C08 tier=quick role=hold_blocks timeout=900
 crate::verif_proof! { unwind = 5;
 #[kani::stub(std::collections::VecDeque::remove, crate::verif_common::vecdeque_remove_stub)]
+#[kani::stub(std::collections::VecDeque::swap_remove_back, crate::verif_common::vecdeque_swap_remove_back_stub)]
+#[kani::stub(std::collections::VecDeque::swap_remove_front, crate::verif_common::vecdeque_swap_remove_front_stub)]
 fn c08_hold_then_tick_delivers_nothing() {
     let (left, moved) = hold_release::<3>([true, false, true], [true, false, true], true, false);
     kani::cover!(left == 3 && moved == 0, "all three stay held");
@@ -476,6 +494,8 @@ fn c08_hold_then_tick_delivers_nothing() {
 // @verif id=C08 tier=quick role=release_delivers timeout=900
 crate::verif_proof! { unwind = 5;
 #[kani::stub(std::collections::VecDeque::remove, crate::verif_common::vecdeque_remove_stub)]
+#[kani::stub(std::collections::VecDeque::swap_remove_back, crate::verif_common::vecdeque_swap_remove_back_stub)]
+#[kani::stub(std::collections::VecDeque::swap_remove_front, crate::verif_common::vecdeque_swap_remove_front_stub)]
 fn c08_hold_release_tick_delivers_all_in_order() {
     let (left, moved) = hold_release::<2>([true, true], [false, true], true, true);
     assert!(left == 0 && moved == 2);
@@ -485,6 +505,8 @@ fn c08_hold_release_tick_delivers_all_in_order() {
 // @verif id=C08,C14 tier=quick role=tick_matures_due timeout=900
 crate::verif_proof! { unwind = 5;
 #[kani::stub(std::collections::VecDeque::remove, crate::verif_common::vecdeque_remove_stub)]
+#[kani::stub(std::collections::VecDeque::swap_remove_back, crate::verif_common::vecdeque_swap_remove_back_stub)]
+#[kani::stub(std::collections::VecDeque::swap_remove_front, crate::verif_common::vecdeque_swap_remove_front_stub)]
 fn c14_tick_matures_exactly_the_due_messages_in_order() {
     let (left, moved) = hold_release::<2>([true, true], [true, true], false, false);
     assert!(left == 0 && moved == 2);
@@ -494,6 +516,8 @@ fn c14_tick_matures_exactly_the_due_messages_in_order() {
 // @verif id=C08,C14 tier=quick role=tick_matures_due timeout=900 desc=second-message-overtakes(first-not-due)
 crate::verif_proof! { unwind = 5;
 #[kani::stub(std::collections::VecDeque::remove, crate::verif_common::vecdeque_remove_stub)]
+#[kani::stub(std::collections::VecDeque::swap_remove_back, crate::verif_common::vecdeque_swap_remove_back_stub)]
+#[kani::stub(std::collections::VecDeque::swap_remove_front, crate::verif_common::vecdeque_swap_remove_front_stub)]
 fn c14_tick_leaves_undue_message_queued() {
     let (left, moved) = hold_release::<2>([true, true], [false, true], false, false);
     assert!(left == 1 && moved == 1);
@@ -503,6 +527,8 @@ fn c14_tick_leaves_undue_message_queued() {
 // @verif id=C08 tier=quick role=release_delivers timeout=900 desc=three-held-messages-one-direction
 crate::verif_proof! { unwind = 6;
 #[kani::stub(std::collections::VecDeque::remove, crate::verif_common::vecdeque_remove_stub)]
+#[kani::stub(std::collections::VecDeque::swap_remove_back, crate::verif_common::vecdeque_swap_remove_back_stub)]
+#[kani::stub(std::collections::VecDeque::swap_remove_front, crate::verif_common::vecdeque_swap_remove_front_stub)]
 fn c08_release_three_held_messages_in_send_order() {
     let (left, moved) = hold_release::<3>([true, true, true], [true, false, true], true, true);
     assert!(left == 0 && moved == 3);
@@ -512,6 +538,8 @@ fn c08_release_three_held_messages_in_send_order() {
 // @verif id=C08,C14 tier=thorough role=tick_matures_due timeout=900 desc=three-messages,two-directions
 crate::verif_proof! { unwind = 6;
 #[kani::stub(std::collections::VecDeque::remove, crate::verif_common::vecdeque_remove_stub)]
+#[kani::stub(std::collections::VecDeque::swap_remove_back, crate::verif_common::vecdeque_swap_remove_back_stub)]
+#[kani::stub(std::collections::VecDeque::swap_remove_front, crate::verif_common::vecdeque_swap_remove_front_stub)]
 fn c14_tick_three_messages_two_directions() {
     let (left, moved) = hold_release::<3>([true, false, true], [true, true, false], false, false);
     assert!(left == 1 && moved == 2);
@@ -524,6 +552,8 @@ fn c14_tick_three_messages_two_directions() {
 // @verif id=C08 tier=quick role=manual_delivery timeout=900
 crate::verif_proof! { unwind = 5;
 #[kani::stub(std::collections::VecDeque::remove, crate::verif_common::vecdeque_remove_stub)]
+#[kani::stub(std::collections::VecDeque::swap_remove_back, crate::verif_common::vecdeque_swap_remove_back_stub)]
+#[kani::stub(std::collections::VecDeque::swap_remove_front, crate::verif_common::vecdeque_swap_remove_front_stub)]
 fn c08_sentref_deliver_schedules_exactly_one() {
     sentref_deliver(1, [true, false, true]);
 }
@@ -531,6 +561,8 @@ fn c08_sentref_deliver_schedules_exactly_one() {
 // @verif id=C08 tier=thorough role=manual_delivery timeout=900 desc=pick-last
 crate::verif_proof! { unwind = 5;
 #[kani::stub(std::collections::VecDeque::remove, crate::verif_common::vecdeque_remove_stub)]
+#[kani::stub(std::collections::VecDeque::swap_remove_back, crate::verif_common::vecdeque_swap_remove_back_stub)]
+#[kani::stub(std::collections::VecDeque::swap_remove_front, crate::verif_common::vecdeque_swap_remove_front_stub)]
 fn c08_sentref_deliver_last() {
     sentref_deliver(2, [true, true, false]);
 }
